@@ -160,8 +160,15 @@ def run(ctx):
     # tree; the number of expansions is then up to fan-out ** height.  Bounded work needs a counter tested by
     # the cut that is *not* restored in the bracket's finally.
     cf6 = p.method("BaseInterpreter", "_collect_builtin_followups")
-    cut_tests = [x for x in own_nodes(cf6.node) if isinstance(x, ast.If) and any(isinstance(y, ast.Return) for y in x.body)
-                 and ("MAX_ACTION_DEPTH" in norm(x.test) or "max_iterations" in norm(x.test))]
+    from sa.util import expand_names
+    cut_tests = []
+    for x in own_nodes(cf6.node):
+        if isinstance(x, ast.If) and any(isinstance(y, ast.Return) for y in x.body):
+            ex_ = expand_names(cf6, x.test)
+            if "MAX_ACTION_DEPTH" in norm(ex_) or "max_iterations" in norm(ex_):
+                x2 = ast.If(test=ex_, body=x.body, orelse=x.orelse)
+                ast.copy_location(x2, x)
+                cut_tests.append(x2)
     tested = set()
     for t in cut_tests:
         for nm in names_in(t.test):
@@ -222,7 +229,7 @@ def run(ctx):
                  f"the expansion counter '{a}' only ever grows: once an interpreter has performed its budget of nested expansions over its whole "
                  f"lifetime every later choose / pure / enqueueActions is cut, although chains shorter than the bound must run to their natural end", b.node)
     cf = p.method("BaseInterpreter", "_collect_builtin_followups")
-    tests = [x for x in own_nodes(cf.node) if isinstance(x, ast.If) and "MAX_ACTION_DEPTH" in norm(x.test)]
+    tests = [x for x in own_nodes(cf.node) if isinstance(x, ast.If) and "MAX_ACTION_DEPTH" in norm(expand_names(cf, x.test))]
     ok = bool(tests) and all(any(isinstance(s, ast.Return) for s in t.body) for t in tests)
     # the depth test must precede every branch that returns follow-ups
     g = cfg_of(cf.node)
